@@ -82,7 +82,14 @@ Verdict(cs) ==
      IF bad = {} THEN V14(TRUE, "ok", "", ToString(Len(LibFile)) \o " procedures")
      ELSE res[CHOOSE k \in bad : \A j \in bad : k <= j]
   ELSE LET bp == BProg(cs.out) IN
-       IF ~bp.ok THEN V14(TRUE, "unjudged", "target-does-not-parse", bp.err)
+       \* a RUN statement that does not parse because an operand is missing passes an empty argument: an interface matter;
+       \* any other parse failure is property C07's
+       IF ~bp.ok THEN
+          (IF bp.errln >= 1 /\ bp.errln <= Len(cs.out) /\ (\E k \in 1..Len(cs.out[bp.errln]) : IsKw(cs.out[bp.errln][k], "RUN"))
+              /\ (\E k \in 1..(Len(cs.out[bp.errln]) - 1) : LET a == cs.out[bp.errln][k]  b == cs.out[bp.errln][k + 1] IN
+                                                             (IsOpT(a, "(") /\ IsOpT(b, ",")) \/ (IsOpT(a, ",") /\ IsOpT(b, ",")) \/ (IsOpT(a, ",") /\ IsOpT(b, ")")))
+           THEN V14(FALSE, "interface", "arity:empty-argument-in-RUN", "program line " \o ToString(bp.errln))
+           ELSE V14(TRUE, "unjudged", "target-does-not-parse", bp.err))
        ELSE LET r == CheckRuns(bp.code, "program") IN
             IF ~r.ok THEN r ELSE LET t == CheckTypes(bp.code, "program") IN IF ~t.ok THEN t ELSE r
 VARIABLES ci, vd
